@@ -21,6 +21,8 @@
 (***************************************************************************)
 EXTENDS Integers, Sequences, FiniteSets, TLC
 
+CONSTANT K      \* how many different partners every component gets in the two- and three-component families
+
 \* ---- constructors --------------------------------------------------------
 GInt(hasLb, lb, hasUb, ub, ext, named, spell) ==
   [k |-> "int", hasLb |-> hasLb, lb |-> lb, hasUb |-> hasUb, ub |-> ub, ext |-> ext, named |-> named, spell |-> spell]
@@ -204,12 +206,14 @@ FList == [q \in 1..(2 * Len(Small) * 3) |->
 FSeq1 == [q \in 1..(NComp * 4) |->
             GSeq((q - 1) % 2 = 1, <<CompOf(((q - 1) \div 4) + 1, "f1")>>, IF ((q - 1) \div 2) % 2 = 0 THEN 0 - 1 ELSE 0)]
 \* two and three components, every marker position
-FSeq2 == [q \in 1..(NComp * 3) |->
-            LET c1 == ((q - 1) \div 3) + 1
-            IN GSeq(q % 5 = 0, <<CompOf(c1, "f1"), CompOf(Spread(c1, 1, NComp), "f2")>>, ((q - 1) % 3) - 1)]
-FSeq3 == [q \in 1..(NComp * 4) |->
-            LET c1 == ((q - 1) \div 4) + 1
-            IN GSeq(q % 7 = 0, <<CompOf(c1, "f1"), CompOf(Spread(c1, 2, NComp), "f2"), CompOf(Spread(c1, 3, NComp), "f3")>>, ((q - 1) % 4) - 1)]
+FSeq2 == [q \in 1..(NComp * 3 * K) |->
+            LET c1 == ((q - 1) \div (3 * K)) + 1
+                k == ((q - 1) \div 3) % K
+            IN GSeq(q % 5 = 0, <<CompOf(c1, "f1"), CompOf(Spread(c1, 1 + 5 * k, NComp), "f2")>>, ((q - 1) % 3) - 1)]
+FSeq3 == [q \in 1..(NComp * 4 * K) |->
+            LET c1 == ((q - 1) \div (4 * K)) + 1
+                k == ((q - 1) \div 4) % K
+            IN GSeq(q % 7 = 0, <<CompOf(c1, "f1"), CompOf(Spread(c1, 2 + 5 * k, NComp), "f2"), CompOf(Spread(c1, 3 + 7 * k, NComp), "f3")>>, ((q - 1) % 4) - 1)]
 FChoice == [q \in 1..(NAlt * 3) |->
               LET a1 == ((q - 1) \div 3) + 1
                   n == ((q - 1) % 3) + 1
